@@ -7,7 +7,15 @@ RULE = ("one sweep of ExtrapolatedSmootherGive / Take (1 and 4 threads, garbage 
 
 
 def run(ctx):
-    ctx.prove()
+    ctx.prove(extra_modules=["GMGProofs.Props.C07c"])
     h = ctx.build_harness("h_ops")
     ctx.pipe([h, "exsmooth", "60" if ctx.tier == "quick" else "1200", "13", "16"], "smooth", label="extrapolated-sweeps")
-    ctx.assumptions += ["spec-level model, see C06", "bitwise invariance of coarse nodes is observed on the implementation (the theorem C07.coarse_fixed is about the spec)"]
+    # code-level model (GMGModel/ExSmootherCode.lean): stored line matrices (tridiagonal / diagonal / CSR), temp = rhs - A_sc^ortho x,
+    # one sweep; take strategy bit for bit against the model evaluated in double
+    quick = ctx.tier == "quick"
+    hc = ctx.build_harness("h_smcode")
+    ctx.pipe([hc, "exsmooth", "30" if quick else "400", "13", "16"], "exsmcode", label="ex-smoother-code-level")
+    ctx.assumptions += ["spec-level theorems C07.*: see C06; code-level theorems C07c.* are about GMGModel/ExSmootherCode.lean, tied to "
+                        "ExtrapolatedSmootherTake by the stage ex-smoother-code-level (stored entries and temp bit for bit in double)",
+                        "bitwise invariance of coarse nodes is observed on the implementation; C07c.code_exsweep_coarse_fixed proves exact "
+                        "equality for the code-level model over any field (nr odd, nt even >= 4, nc >= 2, nc + 3 <= nr, exact line solves)"]
